@@ -375,7 +375,10 @@ def spline_program(meth, chains, N, g, vec, refine_con=1, inc=(True, True), with
         ocp.subject_to(-1.5 <= (u <= 1.5))
         ocp.subject_to(xs[0] <= 3, refine=refine_con, **kw) if meth == "Spline" else ocp.subject_to(xs[0] <= 3, **kw)
         ocp.subject_to(ocp.at_t0(xs[0]) == 0.1)
-        if with_offset:
+        if with_offset == "prev_t":
+            # shifted the other way and with explicit time: imposed at nodes 1..N with the time of that node
+            ocp.subject_to(xs[0] - ocp.prev(xs[0]) <= 0.7 + 0.1 * ocp.t)
+        elif with_offset:
             # a second path constraint with a shifted operand (it has no instance at the final node)
             ocp.subject_to(ocp.next(xs[0]) - xs[0] <= 0.7)
     ocp.add_objective(sum(ocp.at_tf(ca_sumsqr(xs[0] - 1)) for xs, u in ch) + sum(ocp.sum(ca_sumsqr(u)) for xs, u in ch))
@@ -416,9 +419,13 @@ def spline_path_rows(chains, N, g, vec, r, inc, with_offset=False):
             Fx = ca.Function("f", [nlp2.x, nlp2.p], [xv])
             vals = [np.atleast_2d(np.array(Fx(p_, nlp2.p0))) for p_ in pts]
             vals = [v_.reshape(nn, -1, order="F") if v_.shape[0] != nn else v_ for v_ in vals]
+            tnodes = 0.3 + 1.9 * norm_grid(g, N)
             for i in range(vals[0].shape[1] - 1):
                 for e in range(nn):
-                    refs.append(dict(kind="ineq", fp=np.array([0.7 - (v_[e, i + 1] - v_[e, i]) for v_ in vals]), origin="path:next:%d" % i))
+                    if with_offset == "prev_t":
+                        refs.append(dict(kind="ineq", fp=np.array([0.7 + 0.1 * tnodes[i + 1] - (v_[e, i + 1] - v_[e, i]) for v_ in vals]), origin="path:prev:%d" % (i + 1)))
+                    else:
+                        refs.append(dict(kind="ineq", fp=np.array([0.7 - (v_[e, i + 1] - v_[e, i]) for v_ in vals]), origin="path:next:%d" % i))
     missing, extra = NL.match_rows(rows, refs)
     n_extra = 0
     if dropped:
